@@ -301,6 +301,6 @@ def run(rep, program: Program, tier: str) -> None:
         "input domain: log-values in [-inf, max double]; +inf log-values are outside the property",
         "ulp-level accuracy beyond the cancellation criterion is not decided",
     ]
-    rule_r1(rep, program)
-    rule_r2(rep, program)
-    rule_r3(rep, program)
+    rep.isolate(rule_r1, rep, program)
+    rep.isolate(rule_r2, rep, program)
+    rep.isolate(rule_r3, rep, program)
